@@ -93,6 +93,21 @@ async fn run_world(wi: u64, mut rng: Rng) -> anyhow::Result<(String, serde_json:
     let stop_at = rng.below(200);
     tokio::time::sleep(Duration::from_millis(stop_at)).await;
     let peers_known = nodes[a].manager.get_connected_peers().await.len() as u64;
+    // every third world: stop() is called while local stores keep the core engine's write lock busy
+    let mut storm = vec![];
+    if wi % 3 == 0 {
+        for t in 0..16u8 {
+            let node = nodes[a].clone(); let seed = rng.bytes(31);
+            storm.push(tokio::spawn(async move {
+                for i in 0..40u8 {
+                    let mut k = [t; 32]; k[1..].copy_from_slice(&seed); k[1] = i;
+                    let _ = node.manager.store_local(k, vec![i; 64]).await;
+                    tokio::task::yield_now().await;
+                }
+            }));
+        }
+        tokio::task::yield_now().await;
+    }
     let t_stop0 = Instant::now();
     let stopped = tokio::time::timeout(Duration::from_secs(60), nodes[a].manager.stop()).await;
     let stop_ms = t_stop0.elapsed().as_millis() as u64;
@@ -123,6 +138,16 @@ async fn run_world(wi: u64, mut rng: Rng) -> anyhow::Result<(String, serde_json:
     let late: Vec<&TraceEv> = trace.iter().filter(|e| e.is_request && e.from == nodes[a].tid && e.at_ms > stop_returned_at + 2).collect();
     let mut viol = vec![];
     if stopped.is_err() { viol.push(json!({"what": "stop() did not return within 60 s", "world": wi})); }
+    // "ends its background tasks": both the manager's tasks and the core engine's maintenance task must have been told to stop
+    let storm_n = storm.len();
+    for t in storm { let _ = tokio::time::timeout(Duration::from_secs(30), t).await; }
+    if stopped.is_ok() {
+        let core_told = tokio::time::timeout(Duration::from_secs(5), nodes[a].manager.verif_core_shutdown_signalled()).await.unwrap_or(false);
+        if !nodes[a].manager.verif_is_shut_down() || !core_told {
+            viol.push(json!({"what": "stop() returned but a background task was never told to stop", "manager_tasks_told": nodes[a].manager.verif_is_shut_down(),
+                "core_maintenance_told": core_told, "local_stores_in_flight_at_stop": storm_n, "world": wi}));
+        }
+    }
     for h in &hung { viol.push(json!({"what": "operation did not complete within 60 s", "op": h, "world": wi})); }
     // D = dial (<= T) + send (<= T) + answer-or-timeout (<= T)
     let term = format!("({}, {}, {}, {})", 3 * T_MS, 1500,
